@@ -250,7 +250,7 @@ fn pair_inputs() -> BoxedStrategy<(u64, u64)> {
 
 pub fn run(rep: &mut Report) {
     let tier = rep.cfg.tier;
-    rep.rule = "P32E2 inputs of sin, cos, tan (|x| < 393216), asin, acos (|x| <= 1), atan, cbrt (all reals), ln, log2 (x > 0), exp (|x| <= 104), exp2 (-150 <= x < 128), sinh, cosh (|x| <= 88) and pairs for atan2 (not (0,0)), hypot, powf (x, y in [0.5, 5), the range for which the crate states its bound); violation iff the minimum encoding distance between the crate's answer and the posit roundings of the widened libm interval exceeds the stated bound (1: exp, exp2; 2: sin, cos, acos, ln, cosh; 3: tan, asin, atan, atan2, log2; 4: cbrt, hypot, sinh; 5: powf), or NaR is returned for a real in-domain argument, or NaR input / argument outside the real domain (ln/log2 x <= 0, asin/acos |x| > 1) does not give NaR, or a panic. Inputs: strided scan of all 2^32 patterns per unary function (offset = seed mod stride), proptest boundary inputs (neighbours of multiples of pi/2, powers of two, range ends), the posits next to every exp-type reduction boundary (k + 1/2) ln 2, proptest pairs, and powf pairs whose y ln x sits on such a boundary. The per-function ulp-error histogram is in the section labels. Non-trivial = in-domain real argument; distinct (function, input)."
+    rep.rule = "P32E2 inputs of sin, cos, tan (|x| < 393216), asin, acos (|x| <= 1), atan, cbrt (all reals), ln, log2 (x > 0), exp (|x| <= 104), exp2 (-150 <= x < 128), sinh, cosh (|x| <= 88) and pairs for atan2 (not (0,0)), hypot, powf (x, y in [0.5, 5), the range for which the crate states its bound); violation iff the minimum encoding distance between the crate's answer and the posit roundings of the widened libm interval exceeds the stated bound (1: exp, exp2; 2: sin, cos, acos, ln, cosh; 3: tan, asin, atan, atan2, log2; 4: cbrt, hypot, sinh; 5: powf), or NaR is returned for a real in-domain argument, or NaR input / argument outside the real domain (ln/log2 x <= 0, asin/acos |x| > 1) does not give NaR, or a panic. Inputs: per unary function every 64th of the 2^32 patterns in quick (offset = seed mod 64) and ALL 2^32 patterns in thorough, proptest boundary inputs (neighbours of multiples of pi/2, powers of two, range ends), the posits next to every exp-type reduction boundary (k + 1/2) ln 2, proptest pairs, and powf pairs whose y ln x sits on such a boundary. The per-function ulp-error histogram is in the section labels. Non-trivial = in-domain real argument; distinct (function, input)."
         .into();
     rep.assumptions = vec![
         "glibc libm results for these functions are within 4 epsilon relative of the true value (documented <= 2 ulp); a defect smaller than that slack is invisible".into(),
@@ -258,10 +258,17 @@ pub fn run(rep: &mut Report) {
     ];
     super::run_corpus(rep, replay);
     golden_section(rep);
-    let stride = tier.pick(64, 8);
+    // quick: every 64th pattern (offset from the seed); thorough: ALL 2^32 patterns of every unary function
+    // (≈ 2 min per function) — a defect confined to a handful of inputs (cf. seeded C06-r2-m1: four) is
+    // out of reach of any stride, and the complete scan re-derives the K1 list on every run
+    let stride = tier.pick(64, 1);
     let off = rep.cfg.seed % stride;
     for fi in 0..UNARY.len() {
-        rep.lattice(&format!("{}: every {}th of the 2^32 patterns (offset {})", UNARY[fi].name, stride, off), (1u64 << 32) / stride, move |i, l| unary(fi, i * stride + off, l));
+        if stride == 1 {
+            rep.exhaustive(&format!("{}: all 2^32 patterns", UNARY[fi].name), 1u64 << 32, move |i, l| unary(fi, i, l));
+        } else {
+            rep.lattice(&format!("{}: every {}th of the 2^32 patterns (offset {})", UNARY[fi].name, stride, off), (1u64 << 32) / stride, move |i, l| unary(fi, i * stride + off, l));
+        }
         rep.generated(&format!("{}: boundary inputs", UNARY[fi].name), tier.pick(60_000, 1_500_000), boundary_inputs, move |&a, l| unary(fi, a, l));
     }
     // the posits nearest to every multiple of pi/2 inside the trig range (offsets -1, 0, +1, both signs):
